@@ -6904,6 +6904,12 @@ func (c *linkerContext) generateIsolatedHash(chunk *chunkInfo, channel chan []by
 	hashWriteLengthPrefixed(hash, chunk.outputSourceMap.Mappings)
 	hashWriteLengthPrefixed(hash, chunk.outputSourceMap.Suffix)
 
+	// Also include the external legal comments in the hash. The file that holds
+	// them is also named after the chunk, so its name must change when they do.
+	if len(chunk.externalLegalComments) > 0 {
+		hashWriteLengthPrefixed(hash, chunk.externalLegalComments)
+	}
+
 	// Store the hash so far. All other chunks that import this chunk will mix
 	// this hash into their final hash to ensure that the import path changes
 	// if this chunk (or any dependencies of this chunk) is changed.
